@@ -489,6 +489,12 @@ func run(c *mon.Ctx) {
 			if r.Intn(2) == 0 {
 				tree = map[string]any{"rows": rows, "n": nil}
 			}
+		case i%40 == 13 || i%40 == 27:
+			// table-like data whose columns hold cells of mixed kinds, rows as objects or as lists
+			tree = cfg.Table(r)
+			if r.Intn(3) == 0 {
+				tree = map[string]any{"rows": tree, "n": nil}
+			}
 		case i%40 == 11:
 			// a single huge string around each write limit
 			tree = []any{strings.Repeat("s", limits[r.Intn(len(limits))]+r.Intn(3)-1)}
